@@ -41,6 +41,23 @@ type mCfg struct {
 	Legacy   []mLegacy
 	// poison, for C10
 	Raw string // if non-empty, used verbatim instead of the rendering
+	// mergeWild: listeners that spell one wildcard socket differently
+	// ("0.0.0.0:P", "[::]:P") are owned jointly by their services
+	mergeWild bool
+}
+
+func wildPort(addr string) (int, bool) {
+	host, port, err := net.SplitHostPort(addr)
+	if err != nil {
+		return 0, false
+	}
+	var p int
+	fmt.Sscan(port, &p)
+	if host == "" {
+		return p, true
+	}
+	ip := net.ParseIP(host)
+	return p, ip != nil && ip.IsUnspecified()
 }
 
 func (c *mCfg) YAML() string {
@@ -116,6 +133,26 @@ func (c *mCfg) owners() []mOwner {
 		}
 		out[i].keys = append(out[i].keys, l.Key)
 		out[i+1].keys = append(out[i+1].keys, l.Key)
+	}
+	if c.mergeWild {
+		type gk struct {
+			typ  string
+			port int
+		}
+		union := map[gk][]*Key{}
+		n := map[gk]int{}
+		for _, o := range out {
+			if p, w := wildPort(o.ln.Addr); w {
+				union[gk{o.ln.Type, p}] = append(union[gk{o.ln.Type, p}], o.keys...)
+				n[gk{o.ln.Type, p}]++
+			}
+		}
+		for i := range out {
+			if p, w := wildPort(out[i].ln.Addr); w && n[gk{out[i].ln.Type, p}] > 1 {
+				out[i].keys = union[gk{out[i].ln.Type, p}]
+				out[i].legacy = true // any id configured with that cipher and secret
+			}
+		}
 	}
 	return out
 }
